@@ -15,7 +15,9 @@ pub fn corrupt(depth: usize) -> Value {
     let corrupt_before = sqls.len();
     let reads = ["select k, v, s from a", "select k, v, s from a", "select count(*), sum(v) from a", "select k, v from b", "select s from a where k >= 20", "select k, v from b"];
     for r in reads { sqls.push(r.into()); }
-    let block = 128usize;
+    // 48-byte blocks: 8 int rows per block, so every column file of the 15/15/10-row RowSets has two blocks (damage beyond the
+    // first block is only met while a scan is under way, not when the iterators are created)
+    let block = 48usize;
     // reference run: damage nothing (kind 2 rewriting a byte with its own value is not expressible; use a no-op flip twice instead)
     let (base, files) = match h::sql_session_corrupt(block, &sqls, corrupt_before, 0, 1, usize::MAX, 0) {
         // truncating to `usize::MAX % len` would damage: instead take the listing from a run whose results we ignore
